@@ -8,6 +8,8 @@
 //	memlimiter timed <cfg.json> <behaviours.ndjson> <trace.ndjson>
 //	    the same scripts with finite GC intervals in real time; nothing is compared here, the
 //	    observations (readings, decisions, measured instants) are written as a trace for TLC.
+//	memlimiter conc <cfg.json> <scripts.ndjson> <trace.ndjson> users...
+//	    concurrent start/shutdown choreographies (conc.go); recorded for TLC, nothing is judged here.
 //	memlimiter wrap <cfg.json> <behaviours.ndjson> <result.json>
 //	    scripts over start/shutdown/tcheck/consume/ext replayed on the real processors created by one
 //	    memorylimiterprocessor factory for one configuration (or on the real extension), driven by
@@ -354,9 +356,13 @@ type system struct {
 	mu     sync.Mutex
 	cur    uint64
 	nreads int64
+	hook   func() // conc mode: called at the beginning of every read (may block: a held check)
 }
 
 func (s *system) read(ms *runtime.MemStats) {
+	if s.hook != nil {
+		s.hook()
+	}
 	s.mu.Lock()
 	ms.Alloc = s.cur
 	s.nreads++
@@ -709,7 +715,7 @@ func wrapOne(c cfgT, idx int, beh []step, names []string) (*mismatch, int, error
 
 func main() {
 	if len(os.Args) < 5 {
-		fmt.Fprintln(os.Stderr, "usage: memlimiter checks|timed|wrap <cfg.json> <behaviours.ndjson> <out> [users...]")
+		fmt.Fprintln(os.Stderr, "usage: memlimiter checks|timed|wrap|conc <cfg.json> <behaviours.ndjson> <out> [users...]")
 		os.Exit(3)
 	}
 	var c cfgT
@@ -728,6 +734,8 @@ func main() {
 			err = runTimed(c, os.Args[3], os.Args[4])
 		case "wrap":
 			err = runWrap(c, os.Args[3], os.Args[4], os.Args[5:])
+		case "conc":
+			err = runConc(c, os.Args[3], os.Args[4], os.Args[5:])
 		default:
 			err = fmt.Errorf("unknown mode %q", os.Args[1])
 		}
